@@ -121,6 +121,14 @@ def build_corpus(tier, rng):
         c.add_q(k, "adapt", ["count"], note="itercount")
         c.add_q(k, "names", [], note="names")
         c.add_q(k, "iter", [], note="iter")
+        # "position i refers to the same variant in each": the i-th iterated value asked for DIRECTLY, iter().nth(i) on a fresh iterator (a clone of
+        # the untouched one), for every i up to COUNT (seed C08_r17)
+        ne = sum(1 for v in it.variants if not v.has("disabled"))
+        if ne <= 12:
+            ops = []
+            for i in range(ne + 1):
+                ops += ["c0", "%d:t%d" % (i + 1, i)]
+            c.add_q(k, "iterops", ops, note="nth-positions")
         if fieldless:
             c.add_q(k, "array", [], note="array")
     return c
@@ -139,6 +147,8 @@ def compare(corpus, k, kind, args, note, iobs, mobs, cfg):
         mobs = dict(p.split("=", 1) for p in mobs.split("|"))["debug"]
     if kind == "iter":
         mobs = RR.concretize(mobs, it)
+    if kind == "iterops":
+        mobs = dict(p.split("=", 1) for p in mobs.split("|"))["debug"] if mobs.startswith("debug=") else mobs
     ok = iobs == mobs
     detail = None
     # the property's statement on the implementation's own outputs
